@@ -6,13 +6,15 @@ d=$(cd "$1" && pwd); shift
 wt=/tmp/confirm-seed-$$
 git -C /repo worktree add -q --detach $wt HEAD || exit 2
 trap 'git -C /repo worktree remove --force '$wt' >/dev/null 2>&1' EXIT
-build() { cmake -G Ninja -S $wt -B $wt/_b -DCMAKE_BUILD_TYPE=Release >/dev/null 2>&1 && cmake --build $wt/_b 2>&1 | tail -1; }
-demo() { gcc -std=gnu99 -w "$@" -I$wt/include -I$wt/src $d/demo.c $wt/_b/src/libpoly.a -lgmp -lm -o $wt/_b/demo 2>&1 | tail -3; (cd $wt && timeout 120 ./_b/demo >/dev/null 2>&1); echo $?; }
+# SAN=1: the demo needs a sanitizer build of the library (tests are still run on it)
+if [ "${SAN:-0}" = "1" ]; then SANFLAGS="-fsanitize=address -fno-omit-frame-pointer -g"; else SANFLAGS=""; fi
+build() { cmake -G Ninja -S $wt -B $wt/_b -DCMAKE_BUILD_TYPE=Release -DCMAKE_C_FLAGS="$SANFLAGS" -DCMAKE_CXX_FLAGS="$SANFLAGS" >/dev/null 2>&1 && cmake --build $wt/_b 2>&1 | tail -1; }
+demo() { gcc -std=gnu99 -w $SANFLAGS "$@" -I$wt/include -I$wt/src $d/demo.c $wt/_b/src/libpoly.a -lgmp -lm -o $wt/_b/demo 2>&1 | tail -3; (cd $wt && timeout 120 ./_b/demo >/dev/null 2>&1); echo $?; }
 build >/dev/null
 r0=$(demo "$@" | tail -1)
 git -C $wt apply $d/patch.diff || { echo "patch does not apply"; exit 2; }
 b=$(build)
-t=$(ctest --test-dir $wt/_b -j8 2>&1 | grep -c "100% tests passed")
+t=$(ASAN_OPTIONS=detect_leaks=0 ctest --test-dir $wt/_b -j8 2>&1 | grep -c "100% tests passed")
 r1=$(demo "$@" | tail -1)
 echo "baseline_demo_exit=$r0 patched_build='$b' tests_pass=$t patched_demo_exit=$r1"
 [ "$r0" = "0" ] && [ "$t" = "1" ] && [ "$r1" != "0" ] && echo CONFIRMED || echo NOT-CONFIRMED
